@@ -55,7 +55,7 @@ def run(ctx):
     rep = 6 if ctx.quick else 16
     base, variants = [], []
     for i in range(n):
-        prof = dict(max_steps=rng.choice([2, 3, 4, 5]), p_tag=rng.choice([0.2, 0.5, 0.8]), p_waitfor=0.3, p_deployexpr=0.2, p_enabled=0.3, p_multi=0.8, p_sum=0.8)
+        prof = dict(max_steps=rng.choice([2, 3, 4, 5]), p_tag=rng.choice([0.2, 0.5, 0.8]), p_waitfor=0.3, p_deployexpr=0.2, p_enabled=0.3, p_multi=0.8, p_sum=0.8, p_loop=0.25)
         wf, oc, script, inp = gen.gen_workflow(rng, prof)
         ids = list(wf['steps'])
         names = ['zeta', 'a', 'm_1', 'Step9', 'q', 'omega']
